@@ -181,6 +181,48 @@ def comments_rules(prog, chk, pid):
                     "on every normal path the key is either replaced by a value derived from the current configuration or removed", why)
 
 
+
+def _strip_attr_leaves(t: Term, name: str):
+    """t with every leaf X.<name> of its conditional tree replaced by X (None leaves kept); None when some leaf is of another form"""
+    t = unsnap(t)
+    if t.op == "phi":
+        a, b = _strip_attr_leaves(t.args[1], name), _strip_attr_leaves(t.args[2], name)
+        if a is None or b is None:
+            return None
+        return mk("phi", t.args[0], a, b)
+    if t is NONE:
+        return t
+    if t.op == "attr" and t.args[1] == name:
+        return unsnap(t.args[0])
+    return None
+
+
+def _version_never_none(prog) -> bool:
+    """both ConfigId factories pass an int.from_bytes(...) value as the version of every identifier they build"""
+    from bfsa.layout import builtin_call
+
+    for fname in ("create_from_prj_settings", "create_from_dev_settings"):
+        fi = prog.method("bec2format.configid.ConfigId", fname)
+        ex = Exec(prog, policy=lambda e, f, d: False)
+        res = ex.run(fi)
+        news = [e for e in res.events if e.kind == "new" and e.d["cls"].name == "ConfigId"]
+        if not news:
+            return False
+        params = prog.method("bec2format.configid.ConfigId", "__init__").params[1:]
+        for e in news:
+            a = dict(zip(params, e.d["args"]))
+            a.update(e.d["kwargs"])
+            v = a.get("version")
+            bc = builtin_call(unsnap(v)) if v is not None else None
+            if not (bc and bc[0] == "int.from_bytes"):
+                return False
+    init = prog.method("bec2format.configid.ConfigId", "__init__")
+    exi = Exec(prog, policy=lambda e, f, d: False)
+    ri = exi.run(init)
+    sets = {e.d["name"]: unsnap(e.d["value"]) for e in ri.events if e.kind == "setattr"}
+    return "version" in sets and sets["version"].op == "param" and sets["version"].args[0] == "version"
+
+
 def auth_block_rules(prog, chk, pid):
     P = lambda s: "%s.%s" % (pid, s)
     # add_auth_block / __init__: keyed by the stored value's own tag
@@ -250,8 +292,15 @@ def auth_block_rules(prog, chk, pid):
         ok = bool(mc) and mc[1] == "get" and unsnap(mc[0]).op == "param" and unsnap(mc[0]).args[0] == "config" and len(mc[2]) == 1 and is_const(mc[2][0]) and cval(mc[2][0]) == (0x0202, 0x82)
         why = "security code of the update block is not config[(0x0202, 0x82)]"
         if ok:
-            ok = ver is not None and ver.op == "attr" and ver.args[1] == "version"
-            cid = unsnap(ver.args[0]) if ok else None
+            guard_on = None
+            lifted = _strip_attr_leaves(ver, "version") if ver is not None and ver.op == "phi" else None
+            if lifted is not None and _version_never_none(prog):
+                # (a.version if ... else b.version if ... else None): the version of (a if ... else b if ... else None); an identifier built by the two
+                # factories always has an integer version, so `version is not None` says that an identifier exists
+                cid, guard_on, ok = lifted, ver, True
+            else:
+                ok = ver is not None and ver.op == "attr" and ver.args[1] == "version"
+                cid = unsnap(ver.args[0]) if ok else None
             ids = [t for t in subterms(cid)] if cid is not None else []
             ok = ok and any(is_call_named(t, "create_from_prj_settings") for t in ids) and any(is_call_named(t, "create_from_dev_settings") for t in ids)
             why = "version of the update block is not the version of the configuration's identifier (project settings, else device settings)"
@@ -267,7 +316,7 @@ def auth_block_rules(prog, chk, pid):
                         x = unsnap(at[2] if at[3] is NONE else at[3])
                         if x is code:
                             seen.add("code")
-                        elif x is cid:
+                        elif x is (guard_on if guard_on is not None else cid):
                             seen.add("id")
                 good = r[0] == "and" and len(atoms) == 2 and seen == {"code", "id"}
             ok = good
